@@ -230,8 +230,11 @@ def eval_case(case, want, dtypes=("float64", "float32")):
         if float((y32 - y64).abs().max()) > toly:
             i = int((y32 - y64).abs().argmax())
             add("f32_vs_f64", "forward(%s): float32 %.9g vs float64 %.9g" % (ins[i][0], float(y32[i]), float(y64[i])), dtype="float32")
-        if float((l32 - l64).abs().max()) > 2e-3:
-            i = int((l32 - l64).abs().argmax())
+        # the derivative of the linear spline jumps at its knots: a knot that is not representable in
+        # float32 falls into the neighbouring bin there (infinite conditioning of the log-det)
+        keep = torch.tensor([not (par["fam"] == "linear" and (Fraction(x) - par["left"]) * K / (par["right"] - par["left"]) % 1 == 0) for x, _ in ins])
+        if bool(keep.any()) and float((l32 - l64).abs()[keep].max()) > 2e-3:
+            i = int(((l32 - l64).abs() * keep).argmax())
             add("f32_vs_f64", "logabsdet(%s): float32 %.9g vs float64 %.9g" % (ins[i][0], float(l32[i]), float(l64[i])), dtype="float32")
     return out
 
